@@ -50,17 +50,19 @@ func callKey(c *Call) string {
 }
 
 type gor struct {
-	id      int
-	goid    uint64
-	msg     *rt.Msg
-	worker  bool
-	phase   int
-	widx    int
-	done    bool
-	prio    int64
-	site    int32 // spawn site (children)
-	role    string
-	curCall int
+	id        int
+	goid      uint64
+	msg       *rt.Msg
+	worker    bool
+	phase     int
+	widx      int
+	done      bool
+	signalled bool // cond waiter that has been woken
+	prio      int64
+	since     int   // step at which it last became runnable without being chosen (-1: not waiting)
+	site      int32 // spawn site (children)
+	role      string
+	curCall   int
 }
 
 type lockSt struct {
@@ -77,6 +79,7 @@ type sched struct {
 	byTok   map[uint64]*gor
 	gors    []*gor
 	locks   map[uintptr]*lockSt
+	conds   map[uintptr][]*gor // waiters per sync.Cond, in arrival order
 	addrIdx map[uintptr]int
 
 	step       int
@@ -96,6 +99,8 @@ type sched struct {
 	preempts   int
 	mapRanges  int
 	clockJumps int
+	fairKicks  int
+	condWaits  int
 	spawned    int
 	stepCap    int
 	pctPoints  []int
@@ -113,6 +118,7 @@ func newSched(seg *Segment, progress *atomic.Int64) *sched {
 		byGoid:    map[uint64]*gor{},
 		byTok:     map[uint64]*gor{},
 		locks:     map[uintptr]*lockSt{},
+		conds:     map[uintptr][]*gor{},
 		addrIdx:   map[uintptr]int{},
 		h:         sha256.New(),
 		sig:       fnv.New64a(),
@@ -140,7 +146,7 @@ func newSched(seg *Segment, progress *atomic.Int64) *sched {
 }
 
 func (s *sched) newGor(worker bool) *gor {
-	g := &gor{id: len(s.gors), worker: worker}
+	g := &gor{id: len(s.gors), worker: worker, since: -1}
 	// pct: random initial priority above every demotion level
 	g.prio = int64(1_000_000 + s.rng.intn(1_000_000_000))
 	s.gors = append(s.gors, g)
@@ -240,6 +246,22 @@ func (s *sched) handle(m rt.Msg) {
 		}
 	case rt.KCallBegin:
 		g.curCall = int(m.Arg)
+	case rt.KCondWait:
+		// the waiter has really released its lock just before parking
+		s.lock(uintptr(m.Arg)).writer = 0
+		g.signalled = false
+		s.conds[m.Addr] = append(s.conds[m.Addr], g)
+		s.condWaits++
+	case rt.KCondSignal:
+		if ws := s.conds[m.Addr]; len(ws) > 0 {
+			ws[0].signalled = true
+			s.conds[m.Addr] = ws[1:]
+		}
+	case rt.KCondBroadcast:
+		for _, w := range s.conds[m.Addr] {
+			w.signalled = true
+		}
+		s.conds[m.Addr] = nil
 	}
 	if m.Reply == nil {
 		return
@@ -272,6 +294,8 @@ func (s *sched) canRun(g *gor) bool {
 			return true
 		}
 		return l.writer == 0
+	case rt.KCondWait:
+		return g.signalled
 	}
 	return true
 }
@@ -305,7 +329,34 @@ func (s *sched) anyParked() bool {
 	return false
 }
 
+// fairBound: no policy may ignore a continuously runnable goroutine for more
+// than this many steps (weak fairness). Without it a legal spin-wait on an
+// atomic would never end under run-to-block or priority policies.
+const fairBound = 100_000
+
 func (s *sched) pick(run []*gor) *gor {
+	g := s.pick0(run)
+	if !s.seg.Replay {
+		// weak fairness
+		var starved *gor
+		for _, x := range run {
+			if x.since < 0 {
+				x.since = s.step
+			}
+			if x != g && s.step-x.since > fairBound && (starved == nil || x.since < starved.since) {
+				starved = x
+			}
+		}
+		if starved != nil {
+			s.fairKicks++
+			g = starved
+		}
+	}
+	g.since = -1
+	return g
+}
+
+func (s *sched) pick0(run []*gor) *gor {
 	// explicit replay
 	if s.seg.Replay {
 		idx := 0
@@ -627,6 +678,7 @@ func (s *sched) fill(res *Result) {
 	res.Preempts = s.preempts
 	res.MapRanges = s.mapRanges
 	res.ClockJumps = s.clockJumps
+	res.FairKicks = s.fairKicks
 	res.Sites = map[string]int{}
 	for id, n := range s.sites {
 		lbl := fmt.Sprintf("site%d", id)
@@ -751,6 +803,12 @@ func runCalls(t *testing.T, seg *Segment, progress *atomic.Int64) {
 			})
 			rt.RaceEnable()
 			if reason != "" {
+				// join the workers that did finish, so that reading their result slots is ordered
+				for _, g := range ws {
+					if g.done {
+						<-doneCh
+					}
+				}
 				break
 			}
 			// join: genuine happens-before from this phase's workers to whatever follows
